@@ -108,7 +108,8 @@ def check_hkdf(ctx, P):
         if ok and len(cp) == 1:
             ws = rules.window(fn, fn.expr(cp[0].args[1]))
             wd = rules.window(fn, fn.expr(cp[0].args[0]))
-            ok = ws is not None and wd is not None and ws[0] == wt[0] and ws[1] == ((), 0) and ws[2] == wd[2] and wd[1] == ((), 0) and ws[2] is not None
+            same_hi = ws is not None and wd is not None and (ws[2] == wd[2] or (wd[2] is None and ws[2] is not None and ws[2][1] == 0 and len(ws[2][0]) == 1 and ws[2][0][0][1] == 1 and ws[2][0][0][0] == "len(%s)" % wd[0]))
+            ok = ws is not None and wd is not None and ws[0] == wt[0] and ws[1] == ((), 0) and same_hi and wd[1] == ((), 0) and ws[2] is not None
         else:
             ok = False
     ctx.check(ok, "hkdf-order", "T(i-1) iff n != 1", "previous block absorbed first iff n != 1; the chunk receives T[..chunk.len()]", "hkdf_expand does not chain T(i-1) (iff n != 1, before info) or does not copy T's prefix to the chunk", where=fn.where(), key="hkdf-order:chain")
@@ -216,8 +217,23 @@ def check_pbkdf2(ctx, P):
         ok3 = mm == [("input", ["arg5"]), ("raw_result", ["arg5"]), ("reset", [])]
     ctx.check(ok3, "pbkdf2-uj", "Uj = PRF(U(j-1)) for j in 3..=c", "remaining c-2 iterations over 2..c chain through scratch", "calculate_block's remaining iterations are not `for _ in 2..c { input(scratch); raw_result(scratch); reset }`", where=cb.where(), key="pbkdf2-uj")
     # xor accumulation loops: block ^= scratch over the full zip
-    xl = [l for l in rules.iter_loops(cb) if any(s[0] == "iter_mut" for s in l["sources"])]
-    ok4 = len(xl) == 2 and all(sorted(l["sources"]) == [("iter", "arg5"), ("iter_mut", "arg6")] and not l["early_exits"] and not [c for c in l["chain"] if c.split("::")[-1] not in ("iter", "iter_mut", "zip", "into_iter")] for l in xl)
+    def xor_loops(f, dst, src):
+        ls = [l for l in rules.iter_loops(f) if any(s_[0] == "iter_mut" for s_ in l["sources"])]
+        good = [l for l in ls if sorted(l["sources"]) == [("iter", src), ("iter_mut", dst)] and not l["early_exits"] and not [c for c in l["chain"] if c.split("::")[-1] not in ("iter", "iter_mut", "zip", "into_iter")]]
+        # the body is  *out ^= in
+        n_ = 0
+        for l in good:
+            x_ = [st for b_ in l["body"] for st in f.stmts(b_) if st[0] == "=" and st[1][1] == ["*"] and st[2][0] == "bin" and st[2][1] == "BitXor"]
+            n_ += 1 if len(x_) == 1 else 0
+        return len(ls), n_
+    nl, ng = xor_loops(cb, "arg6", "arg5")
+    ok4 = nl == 2 and ng == 2
+    if not ok4 and nl == 0:
+        # the accumulation extracted into a private helper called as helper(block, scratch)
+        hc = [c for c in cb.calls() if c.local and len(c.args) == 2 and cn(cb, c.args[0]) == "arg6" and cn(cb, c.args[1]) == "arg5" and P.fn_opt(c.name()) is not None and c.name().startswith("pbkdf2::")]
+        if len(hc) == 2 and len({c.name() for c in hc}) == 1:
+            hf = P.fn(hc[0].name())
+            ok4 = xor_loops(hf, "arg1", "arg2") == (1, 1)
     ctx.check(ok4, "pbkdf2-xor", "T ^= Uj over every byte", "the block accumulates every Uj by xor over the whole block", "calculate_block does not xor every Uj into the whole block", where=cb.where(), key="pbkdf2-xor")
 
 
